@@ -17,7 +17,7 @@ MC_DEPTH = {
 # generation slices: name -> (quick MaxDepth, thorough MaxDepth)
 GEN_DEPTH = {
     "GEN_relayA": (6, 7), "GEN_relayB": (6, 7), "GEN_relayD": (4, 5), "GEN_time": (7, 8), "GEN_users": (5, 6),
-    "GEN_iso": (4, 5), "GEN_v6": (4, 5), "GEN_v6strict": (5, 6), "GEN_mtu": (4, 4), "GEN_mtu1200": (4, 4), "GEN_resv": (4, 5), "GEN_recycle": (7, 8), "GEN_chan3": (8, 9), "GEN_stream": (5, 6), "GEN_stream2": (5, 6), "GEN_stream3": (5, 6), "GEN_veto": (6, 7), "GEN_longlife": (4, 5), "GEN_quota": (5, 6),
+    "GEN_iso": (4, 5), "GEN_v6": (4, 5), "GEN_v6strict": (5, 6), "GEN_mtu": (4, 4), "GEN_mtu1200": (4, 4), "GEN_resv": (4, 5), "GEN_recycle": (7, 8), "GEN_chan3": (8, 9), "GEN_stream": (5, 6), "GEN_stream2": (5, 6), "GEN_users2": (4, 5), "GEN_stream3": (5, 6), "GEN_veto": (6, 7), "GEN_longlife": (4, 5), "GEN_quota": (5, 6),
 }
 
 
@@ -333,7 +333,7 @@ PROPS = {
                                            "bytes are compared and when, for the credential-defect classes of TurnAuth.tla and the mutation classes of Nonce.tla",
                                            "nonce ages 3601..3659 s are a grey band (implementation granularity) that is never probed"]),
     "C04": dict(title="allocations are isolated by 5-tuple", level="model_checking",
-                run=with_server_trace(core_run(["MC_iso", "MC_relay", "MC_stream", "MC_stream2", "MC_stream3"], ["GEN_iso", "GEN_relayD", "GEN_v6", "GEN_tcpB", "GEN_relaygenA", "GEN_stream", "GEN_stream2", "GEN_stream3", "GEN_reaper"])),
+                run=with_server_trace(core_run(["MC_iso", "MC_relay", "MC_stream", "MC_stream2", "MC_stream3"], ["GEN_iso", "GEN_users2", "GEN_relayD", "GEN_v6", "GEN_tcpB", "GEN_relaygenA", "GEN_stream", "GEN_stream2", "GEN_stream3", "GEN_reaper"])),
                 assumptions=BASE_ASSUME),
     "C05": dict(title="payloads intact, exactly once, truthful attribution", level="model_checking",
                 run=c05_run,
@@ -342,7 +342,7 @@ PROPS = {
                                            "inbound MTU 1600 and 1200, 25 boundary lengths plus random ones up to 9000, single datagrams and bursts of 3-8 that arrive before the application reads; "
                                            "every arrival must be byte-identical to something sent in that direction for that endpoint, once, truthfully attributed; within the limits it must have arrived when the execution settles"]),
     "C06": dict(title="allocation lifetime, refresh and deletion are exact", level="model_checking",
-                run=with_ledger_rt(with_server_trace(core_run(["MC_time", "MC_life", "MC_stream", "MC_reaper", "MC_longlife"], ["GEN_time", "GEN_users", "GEN_relayA", "GEN_lifeA", "GEN_stream", "GEN_reaper", "GEN_reaperS", "GEN_longlife"]))),
+                run=with_ledger_rt(with_server_trace(core_run(["MC_time", "MC_life", "MC_stream", "MC_reaper", "MC_longlife"], ["GEN_time", "GEN_users", "GEN_relayA", "GEN_lifeA", "GEN_stream", "GEN_reaper", "GEN_reaperS", "GEN_longlife", "GEN_mtu"]))),
                 assumptions=BASE_ASSUME),
     "C07": dict(title="permissions and channels live one full timeout past their last refresh", level="model_checking",
                 run=with_server_trace(core_run(["MC_relay", "MC_relayB", "MC_steps", "MC_veto"], ["GEN_relayA", "GEN_relayB", "GEN_steps", "GEN_chan3", "GEN_veto"])),
